@@ -7,7 +7,7 @@
  "annotate": ["crypto/crypto_entropy.c", "util/insecure_memzero.c"],
  "specs": {"util/insecure_memzero.c": "contracts/util__insecure_memzero.c.drbg.spec"},
  "expect_loops": ["insecure_memzero_func"],
- "defines": ["VERIF_HALLOC"],
+ "defines": ["VERIF_HALLOC", "HM_DMAX=0", "HM_LOGN=3"],
  "models": ["models/drbg_hmac.c", "models/drbg_os.c"],
  "timeout": 600,
  "assumptions": ["HMAC-SHA256 is an abstract leaf (models/drbg_hmac.c): its conformance is C01's",
